@@ -123,6 +123,13 @@ func histRun(env *sess.Env, sc *histScenario, cfg histCfg) histResult {
 		res.steps += int64(len(ss.Events))
 		res.opTrace = append(res.opTrace, len(ss.Events)-start)
 		res.log.Add("op %d %s -> err=%v panic=%v", i, op.Kind, r.Err != nil, r.Panic != nil)
+		if op.ViaRpc && !faulted {
+			if r.Err == nil && r.Panic == nil {
+				res.stats.Inc("op:delivered-as-rpc-input")
+			} else {
+				res.stats.Inc("op:delivered-as-rpc-input:failed")
+			}
+		}
 		did := faulted && len(ss.Fired) > 0
 		if did {
 			res.fired = true
